@@ -115,6 +115,75 @@ def documented_status(l):
     return None
 
 
+REFUSAL_LEN = {"connlimit": 26, "ratelimit": 29, "roundrobin": 21, "rebalancer": 21, "buffer": 24}
+
+
+def refusal_len(lay):
+    if lay["kind"] == "cbreaker":
+        return 19 if lay["fb"] == "" else (5 if lay["fb"] == "r" else 7)
+    return REFUSAL_LEN[lay["kind"]]
+
+
+def expected_course(stack, iv, sc, tokens, src, blen, abort, hij):
+    """What the statement expects of one request, layer by layer from the outside (independent of the Lean model).
+    Limits are per source: the parked and the priming request belong to the default source "src"; a limiter driven to
+    1-per-period/burst-1 gives every other source exactly one token (frozen clock: no refill), and an admitted request takes its
+    token even when a later layer refuses or the handler fails.  A buffer with Retry("IsNetworkError() && Attempts() <= 2")
+    repeats everything inside it while the answer it sees is 502/504 (attempts 1 and 2) -- each repetition meets the limiters in
+    the state the previous one left, so a later attempt may be refused (that refusal, not being a network error, is final).
+    A hijacked or aborted attempt ends the request; a response over a buffer's MaxResponseBodyBytes becomes a 500.
+    Returns kind in handler|hijacked|aborted|refused|overflow, the status the innermost answer carries, body length, the layer
+    that refused, and how often the handler ran."""
+    grpc = next((v for k, v in sc["hdrs"] if k == "Grpc-Status"), "")
+    clen = next((v for k, v in sc["hdrs"] if k == "Content-Length"), "")
+    hstatus = sc["status"] if sc["status"] is not None else 200
+    total = sum(sc["chunks"])
+
+    def run(i):
+        if i == len(stack):
+            if abort:
+                return {"kind": "aborted", "status": 0, "len": 0, "invoked": 1}
+            if hij:
+                return {"kind": "hijacked", "status": hstatus, "len": total, "invoked": 1}
+            return {"kind": "handler", "status": hstatus, "len": total, "invoked": 1}
+        lay = stack[i]
+        k = lay["kind"]
+        refused = False
+        if k == "buffer":
+            refused = lay["q"] > 0 and blen > lay["q"]
+        elif iv == i and k == "connlimit":
+            refused = src == "src"
+        elif iv == i and k == "ratelimit":
+            if tokens.get(src, 1) == 0:
+                refused = True
+            else:
+                tokens[src] = tokens.get(src, 1) - 1
+        elif iv == i and k in STATEFUL:
+            refused = True
+        if refused:
+            return {"kind": "refused", "layer": i, "status": documented_status(lay), "len": refusal_len(lay), "invoked": 0}
+        if k != "buffer":
+            return run(i + 1)
+        ran = 0
+        attempt = 1
+        while True:
+            r = run(i + 1)
+            ran += r["invoked"]
+            r = dict(r, invoked=ran)
+            if r["kind"] in ("aborted", "hijacked"):
+                return r
+            if 0 < lay["r"] < r["len"]:
+                return {"kind": "overflow", "status": 500, "len": 21, "invoked": ran}
+            if lay["retry"] and attempt <= 2 and r["status"] in (502, 504):
+                attempt += 1
+                continue
+            if r["kind"] == "handler" and (grpc not in ("", "0") or clen == "0" or hstatus in (204, 304)):
+                r["len"] = 0  # documented: expectBody is false, the buffer relays no body
+            return r
+
+    return run(0)
+
+
 # ---------------------------------------------------------------- monitor (model-independent restatement of C20)
 def monitor(ops, outs):
     bad = []
@@ -125,7 +194,7 @@ def monitor(ops, outs):
             continue
         if f[0] == "cfg":
             stack, iv, sc = parse_cfg(l)
-            spent = {"src": True}
+            tokens = {"src": 0}  # rate tokens left per source at the limiter driven to its limit (burst 1; the priming request took src's)
             if o.startswith("env-error") or o.startswith("panic hx: no loopback"):
                 return bad  # the host ran out of ports: says nothing about the code (core still reports the divergence from the model)
             if o != "ok":
@@ -144,32 +213,19 @@ def monitor(ops, outs):
                 abort = True
             if t.startswith("src="):
                 src = t[4:]
-        # which layers have a reason to intervene on this request.  Limits are per source: the parked request and the priming
-        # request belong to the default source "src"; a limiter driven to 1-per-period/burst-1 admits exactly one request of
-        # every other source (frozen clock: no refill) and must keep refusing a spent source whatever other sources do
-        I = []
-        for i, lay in enumerate(stack):
-            if lay["kind"] in STATEFUL and iv == i:
-                if lay["kind"] == "connlimit":
-                    if src == "src":
-                        I.append(i)
-                elif lay["kind"] == "ratelimit":
-                    if spent.get(src):
-                        I.append(i)
-                else:
-                    I.append(i)
-            elif lay["kind"] == "buffer" and lay["q"] > 0 and blen > lay["q"]:
-                I.append(i)
-        if iv is not None and stack[iv]["kind"] == "ratelimit" and not any(i < iv for i in I):
-            spent[src] = True  # the request reaches the limiter: it either is refused or takes the source's only token
+        front_hijack = sc["front"] in ("real", "noflush")
+        front_flush = sc["front"] in ("real", "nohijack")
+        hij = sc["hijack"] and front_hijack and not abort  # the attempt can only succeed where the front offers Hijack
+        total = sum(sc["chunks"])
+        exp = expected_course(stack, iv, sc, tokens, src, blen, abort, hij)
         if o.startswith("env-error"):
             continue
-        if abort and o.startswith("aborted "):
-            # the handler ran and panicked; legitimate only if no layer had a reason to answer by itself, and only once
-            if I:
-                bad.append("decisive: layer %d (%s) intervenes for source %s but the (aborting) handler was invoked: %s" % (min(I), stack[min(I)]["kind"], src, o))
-            elif o != "aborted invoked=1":
-                bad.append("transparent: aborting handler invoked more than once: %s" % o)
+        if exp["kind"] == "aborted":
+            if o != "aborted invoked=%d" % exp["invoked"]:
+                bad.append("transparent: no layer has a reason to intervene for source %s: the aborting handler must run %d time(s), got: %s" % (src, exp["invoked"], o[:70]))
+            continue
+        if o.startswith("aborted "):
+            bad.append("decisive: layer %d (%s) intervenes for source %s but the (aborting) handler was invoked: %s" % (exp.get("layer", -1), exp["kind"], src, o))
             continue
         if not o.startswith("status="):
             bad.append("no-response: %r did not produce one complete response: %s" % (l, o))
@@ -177,35 +233,25 @@ def monitor(ops, outs):
         kv = dict(t.split("=", 1) for t in o.split())
         status, invoked = int(kv["status"]), int(kv["invoked"])
         hdrs = [] if kv["hdr"] == "-" else [tuple(x.split(":", 1)) for x in kv["hdr"].split("|")]
-        total = sum(sc["chunks"])
-        front_hijack = sc["front"] in ("real", "noflush")
-        front_flush = sc["front"] in ("real", "nohijack")
-        hij = sc["hijack"] and front_hijack  # the attempt can only succeed where the front offers Hijack; elsewhere the handler answers normally
-        if abort and not I:
-            bad.append("transparent: no layer has a reason to intervene but the request (aborting handler) was answered without it: %s" % o[:60])
-            continue
-        if I:
-            o_idx = min(I)
-            if invoked != 0:
-                bad.append("decisive: layer %d (%s) intervenes for source %s but the handler was invoked %d times" % (o_idx, stack[o_idx]["kind"], src, invoked))
-            if any(lay["kind"] == "buffer" and 0 < lay["r"] < 64 for lay in stack[:o_idx]):
-                continue  # an outer buffer's response limit is itself exceeded by the refusal: outside the quantifier
-            want = sorted(set(documented_status(stack[i]) for i in I)) if len(I) > 1 else [documented_status(stack[o_idx])]
-            if status not in want:
+        if exp["kind"] == "refused":
+            o_idx = exp["layer"]
+            if invoked != exp["invoked"]:
+                bad.append("decisive: layer %d (%s) intervenes for source %s: the handler must have run %d time(s) (earlier attempts of a retrying buffer only), it ran %d times" % (o_idx, stack[o_idx]["kind"], src, exp["invoked"], invoked))
+            want = documented_status(stack[o_idx])
+            if status != want:
                 bad.append("decisive: layer %d (%s) intervenes, documented status %s, client got %d" % (o_idx, stack[o_idx]["kind"], want, status))
-            if len(I) == 1 and stack[o_idx]["kind"] == "ratelimit" and not any(k == "X-Retry-In" for k, _ in hdrs):
+            if stack[o_idx]["kind"] == "ratelimit" and not any(k == "X-Retry-In" for k, _ in hdrs):
                 bad.append("decisive: rate-limit refusal without X-Retry-In")
-            if len(I) == 1 and stack[o_idx]["kind"] == "cbreaker" and stack[o_idx]["fb"] == "r" and not any(k == "Location" for k, _ in hdrs):
+            if stack[o_idx]["kind"] == "cbreaker" and stack[o_idx]["fb"] == "r" and not any(k == "Location" for k, _ in hdrs):
                 bad.append("decisive: redirect fallback without Location")
             continue
-        if not hij and any(lay["kind"] == "buffer" and 0 < lay["r"] < total for lay in stack):
-            if invoked > 1:
-                bad.append("transparent: handler invoked %d times" % invoked)
-            continue  # response over a buffer maximum: not a non-intervening configuration
-        # ---- transparent
-        # exactly once -- except the documented retry: a buffer with Retry("IsNetworkError() && Attempts() <= 2") repeats a 502/504 twice
-        n_retry = sum(1 for lay in stack if lay["kind"] == "buffer" and lay["retry"])
-        want_inv = 3 ** n_retry if (sc["status"] in (502, 504) and not hij) else 1
+        if exp["kind"] == "overflow":
+            # a response over some buffer's MaxResponseBodyBytes: not a non-intervening configuration (C15); only the run count is judged
+            if invoked != exp["invoked"]:
+                bad.append("transparent: handler invoked %d times, expected %d" % (invoked, exp["invoked"]))
+            continue
+        # ---- transparent: the handler's own response reaches the client
+        want_inv = exp["invoked"]
         if invoked != want_inv:
             bad.append("transparent: no layer has a reason to intervene but the handler was invoked %d times, expected %d (stack %s, handler status %s)" % (invoked, want_inv, [x["kind"] + ("/t" if x["retry"] else "") for x in stack], sc["status"]))
             continue
